@@ -17,7 +17,8 @@ use crate::spec;
 #[derive(Clone, Copy, Debug, Serialize, Deserialize, PartialEq, Eq, Hash, PartialOrd, Ord)]
 pub struct Cont {
     /// 0 random bytes, 1 one repeated byte, 2 near-duplicate family (same length+prefix, last
-    /// byte differs), 3 text-like
+    /// byte differs), 3 text-like (also 5..), 4 near-duplicate family whose members differ in one
+    /// byte anywhere inside
     pub k: u8,
     pub seed: u32,
     pub len: u32,
@@ -35,6 +36,16 @@ impl Cont {
                 Rng::new(0xFA111E ^ u64::from(self.len)).fill(&mut v);
                 if let Some(l) = v.last_mut() {
                     *l = self.seed as u8;
+                }
+            }
+            4 => {
+                // family determined by length only; members differ in one single byte somewhere
+                // inside (position and value by the seed; seed 0 is the unmodified base)
+                Rng::new(0xFA4117 ^ u64::from(self.len)).fill(&mut v);
+                if self.seed != 0 && len > 0 {
+                    let mut r = Rng::new(u64::from(self.seed) ^ 0xD1FF);
+                    let at = r.usize_below(len);
+                    v[at] ^= 1 + r.below(255) as u8;
                 }
             }
             _ => {
